@@ -14,6 +14,41 @@ import PrologVerif.Spec.SLD
 namespace PrologVerif.Refine
 open PrologVerif PrologVerif.VM PrologVerif.DecompileCompile
 
+/-! ### pointwise relation of two lists -/
+
+inductive Forall2 {α β : Type} (R : α → β → Prop) : List α → List β → Prop
+  | nil : Forall2 R [] []
+  | cons {a : α} {b : β} {as : List α} {bs : List β} : R a b → Forall2 R as bs → Forall2 R (a :: as) (b :: bs)
+
+theorem Forall2.length_eq {α β : Type} {R : α → β → Prop} {as : List α} {bs : List β} (h : Forall2 R as bs) :
+    as.length = bs.length := by
+  induction h with
+  | nil => rfl
+  | cons _ _ ih => simp [ih]
+
+theorem Forall2.append {α β : Type} {R : α → β → Prop} {as as' : List α} {bs bs' : List β}
+    (h : Forall2 R as bs) (h' : Forall2 R as' bs') : Forall2 R (as ++ as') (bs ++ bs') := by
+  induction h with
+  | nil => exact h'
+  | cons hd _ ih => exact .cons hd ih
+
+theorem Forall2.imp_mem {α β : Type} {R S : α → β → Prop} {as : List α} {bs : List β} (h : Forall2 R as bs)
+    (hRS : ∀ a ∈ as, ∀ b, R a b → S a b) : Forall2 S as bs := by
+  induction h with
+  | nil => exact .nil
+  | cons hd _ ih => exact .cons (hRS _ (by simp) _ hd) (ih (fun a ha => hRS a (by simp [ha])))
+
+theorem Forall2.imp {α β : Type} {R S : α → β → Prop} {as : List α} {bs : List β} (h : Forall2 R as bs)
+    (hRS : ∀ a b, R a b → S a b) : Forall2 S as bs := by
+  induction h with
+  | nil => exact .nil
+  | cons hd _ ih => exact .cons (hRS _ _ hd) ih
+
+theorem forall2_maps {α β γ : Type} {R : β → γ → Prop} (f : α → β) (g : α → γ) :
+    ∀ l : List α, (∀ a ∈ l, R (f a) (g a)) → Forall2 R (l.map f) (l.map g)
+  | [], _ => .nil
+  | a :: l, h => .cons (h a (by simp)) (forall2_maps f g l (fun a' ha' => h a' (by simp [ha'])))
+
 /-! ## the fragment -/
 
 /-- names with a meaning of their own in the VM model (`VM.builtin`) or in the reference interpreter
@@ -89,6 +124,9 @@ def goalS (s : Bool) (t : Term) : Bool := t == .atom "!" || stepGoal s t
 
 def bodyS (s : Bool) (b : Term) : Bool := (SLD.conjuncts b).all (goalS s)
 
+/-- a body whose top-level disjuncts are bodies: what `call/1` may be given -/
+def dbodyS (s : Bool) (b : Term) : Bool := (SLD.disjuncts b).all (bodyS s)
+
 def clauseS (s : Bool) (c : Term) : Bool :=
   wfT c && hornHead (SLD.headBody c).1 && bodyS s (SLD.headBody c).2
 
@@ -106,7 +144,7 @@ def clauseC (s : Bool) (c : Term) : Bool :=
 
 structure FragS (s : Bool) (prog : List Term) (query : Term) : Prop where
   clauses : ∀ c ∈ prog, clauseS s c = true
-  goal : bodyS s query = true
+  goal : dbodyS s query = true
   wf : wfT query = true
   nonvar : ∀ v, query ≠ .var v
   small : SLD.maxVar query + 10 ≤ 1000000
@@ -340,19 +378,6 @@ theorem bodyOK_not_var {b : Term} (h : bodyOK b = true) : ∀ v, b ≠ .var v :=
     obtain ⟨rfl, rfl⟩ := hfa
     exact reserved_not_user hu (by decide)
 
-theorem FragS.of_cut {prog : List Term} {query : Term} (h : CutFrag prog query) : FragS false prog query :=
-  ⟨fun c hc => by rw [clauseS_false]; exact h.clauses c hc, by rw [bodyS_false]; exact h.goal, h.wf, bodyOK_not_var h.goal, h.small⟩
-
-theorem FragS.mono {prog : List Term} {query : Term} (h : FragS false prog query) (s : Bool) : FragS s prog query := by
-  have hb : ∀ b, bodyS false b = true → bodyS s b = true := by
-    intro b hb
-    simp only [bodyS, List.all_eq_true] at hb ⊢
-    exact fun t ht => goalS_mono (hb t ht) s
-  refine ⟨fun c hc => ?_, hb _ h.goal, h.wf, h.nonvar, h.small⟩
-  have := h.clauses c hc
-  simp only [clauseS, Bool.and_eq_true] at this ⊢
-  exact ⟨this.1, hb _ this.2⟩
-
 theorem isCall1_shape {g : Term} (h : isCall1 g = true) : ∃ x, g = .app "call" (.cons x .nil) := by
   unfold isCall1 at h
   split at h
@@ -403,6 +428,52 @@ theorem not_horn_reserved {f : String} {as : Args} (hf : f ∈ reservedNames) (h
     rcases h.2 with h2 | h2
     · exact hne h2.1
     · exact reserved_not_user h2 hf
+
+theorem disjuncts_horn (b : Term) {fl : Bool} (h : bodyS fl b = true) : SLD.disjuncts b = [b] := by
+  unfold SLD.disjuncts
+  split
+  · rfl
+  · rename_i a b' hna
+    exfalso
+    have : SLD.conjuncts (.app ";" (.cons a (.cons b' .nil))) = [.app ";" (.cons a (.cons b' .nil))] := by
+      simp [SLD.conjuncts, SLD.wrapVar]
+    simp only [bodyS, this, List.all_cons, List.all_nil, Bool.and_true] at h
+    rcases goalS_cases h with h | h
+    · simp [SLD.mk2] at h
+    rcases stepGoal_cases h with h | ⟨_, hc⟩
+    · rw [not_horn_reserved (by decide) (by decide)] at h; cases h
+    · cases hc with
+      | call x' hx' => simp at hx'
+      | ite c t e hx' =>
+        simp only [Term.app.injEq, Args.cons.injEq, true_and, and_true] at hx'
+        exact hna c t hx'.1
+      | ifthen c t hx' => simp at hx'
+      | once x' hx' => simp at hx'
+      | neg x' hx' => simp at hx'
+  · rfl
+
+
+theorem dbodyS_of_body {fl : Bool} {b : Term} (h : bodyS fl b = true) : dbodyS fl b = true := by
+  simp [dbodyS, disjuncts_horn b h, h]
+
+
+theorem FragS.of_cut {prog : List Term} {query : Term} (h : CutFrag prog query) : FragS false prog query :=
+  ⟨fun c hc => by rw [clauseS_false]; exact h.clauses c hc, dbodyS_of_body (by rw [bodyS_false]; exact h.goal), h.wf,
+    bodyOK_not_var h.goal, h.small⟩
+
+theorem FragS.mono {prog : List Term} {query : Term} (h : FragS false prog query) (s : Bool) : FragS s prog query := by
+  have hb : ∀ b, bodyS false b = true → bodyS s b = true := by
+    intro b hb
+    simp only [bodyS, List.all_eq_true] at hb ⊢
+    exact fun t ht => goalS_mono (hb t ht) s
+  refine ⟨fun c hc => ?_, ?_, h.wf, h.nonvar, h.small⟩
+  rotate_left
+  · have := h.goal
+    simp only [dbodyS, List.all_eq_true] at this ⊢
+    exact fun dj hdj => hb dj (this dj hdj)
+  have := h.clauses c hc
+  simp only [clauseS, Bool.and_eq_true] at this ⊢
+  exact ⟨this.1, hb _ this.2⟩
 
 /-- a body of the fragment is not a disjunction: the compiler sees ONE alternative -/
 theorem altBodies_toRep {s : Bool} (b : Term) (h : bodyS s b = true) : altBodies (toRep b) = [toRep b] := by
@@ -644,5 +715,80 @@ theorem horn_fact_layout {s : Bool} (c : Term) (hc : clauseC s c = true)
     refine ⟨cl, headArgs (toRep c), rfl,
       ⟨wfs_headArgs _ hwf, by rw [hvars]; exact List.prefix_refl _, hnd, by rw [hn, hname], ?_, hargs, hh⟩, hcode⟩
     rw [har, ← hargs, absArgs_toList_length]
+
+/-! ### the alternatives of a body -/
+
+theorem toRep_eq_compound {t : Term} {f : String} {rs : RepList} (h : toRep t = .compound f rs) (hf : f ≠ ".") :
+    ∃ as, t = .app f as ∧ rs = toReps as := by
+  cases t with
+  | app g as =>
+    by_cases hg : g = "."
+    · subst hg
+      rw [toRep] at h; unfold mkApp at h
+      split at h
+      · split at h <;> cases h
+      · simp only [Rep.compound.injEq] at h; exact absurd h.1.symm hf
+    · rw [toRep_app_ne_dot _ _ hg] at h
+      simp only [Rep.compound.injEq] at h
+      obtain ⟨rfl, rfl⟩ := h
+      exact ⟨as, rfl, rfl⟩
+  | _ => simp [toRep] at h
+
+theorem toReps_eq_two {as : Args} {x y : Rep} (h : toReps as = .cons x (.cons y .nil)) :
+    ∃ a b, as = .cons a (.cons b .nil) ∧ x = toRep a ∧ y = toRep b := by
+  cases as with
+  | nil => simp [toReps] at h
+  | cons a as1 =>
+    cases as1 with
+    | nil => simp [toReps] at h
+    | cons b as2 =>
+      cases as2 with
+      | nil =>
+        simp only [toReps, RepList.cons.injEq, and_true] at h
+        exact ⟨a, b, rfl, h.1.symm, h.2.symm⟩
+      | cons _ _ => simp [toReps] at h
+
+theorem altBodies_semi (x y : Rep) :
+    altBodies (.compound ";" (.cons x (.cons y .nil))) =
+      match x with
+      | .compound "->" (.cons _ (.cons _ .nil)) => [.compound ";" (.cons x (.cons y .nil))]
+      | _ => x :: altBodies y := by
+  conv => lhs; unfold altBodies
+  rfl
+
+theorem altBodies_disj (b : Term) : altBodies (toRep b) = (SLD.disjuncts b).map toRep := by
+  fun_induction SLD.disjuncts b with
+  | case1 c t e =>
+    have e1 : toRep (Term.app ";" (Args.cons (Term.app "->" (Args.cons c (Args.cons t Args.nil))) (Args.cons e Args.nil))) =
+        .compound ";" (.cons (.compound "->" (.cons (toRep c) (.cons (toRep t) .nil))) (.cons (toRep e) .nil)) := by
+      rw [toRep_app_ne_dot _ _ (by decide)]
+      simp only [toReps]
+      rw [toRep_app_ne_dot "->" _ (by decide)]
+      simp only [toReps]
+    simp only [SLD.ifThenElse, SLD.mk2, List.map_cons, List.map_nil, e1]
+    rw [altBodies_semi]
+    rfl
+  | case2 a b hna ih =>
+    have e1 : toRep (Term.app ";" (Args.cons a (Args.cons b Args.nil))) =
+        .compound ";" (.cons (toRep a) (.cons (toRep b) .nil)) := by
+      rw [toRep_app_ne_dot _ _ (by decide)]
+      simp only [toReps]
+    rw [e1, altBodies_semi]
+    split
+    · rename_i x y heq
+      exfalso
+      obtain ⟨as, rfl, has⟩ := toRep_eq_compound heq (by decide)
+      obtain ⟨c, t, rfl, _, _⟩ := toReps_eq_two has.symm
+      exact hna c t rfl
+    · rw [ih]; rfl
+  | case3 t h1 h2 =>
+    unfold altBodies
+    split
+    · rename_i a b heq
+      exfalso
+      obtain ⟨as, rfl, has⟩ := toRep_eq_compound heq (by decide)
+      obtain ⟨x, y, rfl, _, _⟩ := toReps_eq_two has.symm
+      exact h2 x y rfl
+    · rfl
 
 end PrologVerif.Refine
